@@ -100,7 +100,7 @@ def run(chk):
         if msparse.parse(text)[0]["npop"] != cmdx["npop"] or len(msparse.parse(text)[0]["events"]) != len(cmdx["events"]):
             chk.violation("to_ms:rendering", "the printed command has a different shape from the exactly rendered one", rep)
         gg = g.in_generations()
-        if semcheck.near_coincident(gg):
+        if semcheck.near_coincident(gg) or semcheck.near_coincident(g):
             chk.count("skipped_near_coincident_times")
             continue
         popmap = list(range(len(gg.demes)))
